@@ -15,6 +15,7 @@ current file, so it follows edits).
 """
 import sys, os, ast, types, importlib.util, struct
 import threading as _rt          # the REAL threading module
+import _thread
 
 _rt.stack_size(256 * 1024)
 
@@ -35,22 +36,30 @@ class VThread(object):
   """Scheduler-side record of one virtual thread."""
   def __init__(self, sched, vid, name):
     self.sched, self.vid, self.name = sched, vid, name
-    self.baton = _rt.Semaphore(0)
+    self.baton = _thread.allocate_lock()   # binary semaphore: released = granted
+    self.baton.acquire()
+    self.parked = False
     self.finished = False
     self.started = False
-    self.pending = None        # (kind, obj, enabled_fn, is_yield)
+    self.pending = None        # (kind, obj, enabled_fn, is_yield, label)
     self.os_thread = None
     self.exc = None
 
 
 class Scheduler(object):
+  """The scheduling decision is taken by the thread that holds the baton (no
+  separate scheduler thread): continuing the same thread costs no OS context
+  switch at all, handing over costs one."""
   def __init__(self, choices=(), horizon=600, line_points=None, modfile=None):
     self.choices = list(choices)     # prefix to replay; afterwards choice 0
     self.horizon = horizon
     self.threads = []
-    self.parked = _rt.Semaphore(0)   # a vthread signals it has parked / finished
+    self.done = _thread.allocate_lock()   # released when the execution is over
+    self.done.acquire()
     self.current = None
     self.aborting = False
+    self.failure = None              # None | "deadlock" | "livelock" | "diverged"
+    self.blocked_at_failure = None
     self.points = []                 # decision points with > 1 candidate
     self.taken = []                  # the choice made at each decision point
     self.steps = 0
@@ -64,24 +73,32 @@ class Scheduler(object):
     return getattr(self.local, "vt", None)
 
   def point(self, kind, obj=None, enabled=None, is_yield=False, label=""):
-    """Announce the next operation and park until the scheduler grants it."""
+    """Announce the next operation; continue when the scheduler grants it."""
     vt = self.me()
-    if vt is None or self.aborting:
-      if self.aborting and vt is not None:
-        raise Abort()
+    if vt is None:
       return
-    vt.pending = (kind, obj, enabled, is_yield, label)
-    self.parked.release()
-    vt.baton.acquire()
     if self.aborting:
       raise Abort()
+    vt.pending = (kind, obj, enabled, is_yield, label)
+    nxt = self._decide()
+    if nxt is None:
+      raise Abort()
+    if nxt is not vt:
+      vt.parked = True
+      nxt.baton.release()
+      vt.baton.acquire()
+      vt.parked = False
+      if self.aborting:
+        raise Abort()
 
   def spawn(self, name, target):
     vt = VThread(self, len(self.threads), name)
     self.threads.append(vt)
     def boot():
       self.local.vt = vt
+      vt.parked = True
       vt.baton.acquire()             # wait for the first grant ("begin")
+      vt.parked = False
       try:
         if self.aborting:
           return
@@ -96,7 +113,10 @@ class Scheduler(object):
         sys.settrace(None)
         vt.finished = True
         vt.pending = None
-        self.parked.release()
+        if not self.aborting:
+          nxt = self._decide()
+          if nxt is not None:
+            nxt.baton.release()
     vt.os_thread = _rt.Thread(target=boot, daemon=True)
     vt.pending = ("begin", None, None, False, name)
     return vt
@@ -111,57 +131,77 @@ class Scheduler(object):
       self.point("line", None, None, False, "L%d" % frame.f_lineno)
     return self._local_tracer
 
-  # ---- the driver loop ----------------------------------------------------
+  # ---- the scheduling decision ----------------------------------------------
   def enabled(self, vt):
     if vt.finished or vt.pending is None or not vt.started:
       return False
     en = vt.pending[2]
     return True if en is None else bool(en())
 
+  def _fail(self, kind):
+    self.failure = kind
+    self.blocked_at_failure = self.blocked_summary()
+    self.aborting = True
+    self.done.release()
+    return None
+
+  def _decide(self):
+    """Pick the thread that performs the next operation (None: execution over)."""
+    live = [t for t in self.threads if t.started and not t.finished]
+    if not live:
+      self.done.release()
+      return None
+    cands = [t for t in live if self.enabled(t)]
+    if not cands:
+      return self._fail("deadlock")
+    cur = self.current
+    cur_enabled = cur is not None and cur in cands
+    yielding = cur_enabled and cur.pending[3]
+    n = len(self.threads) + 1
+    base = cur.vid if cur is not None else -1
+    rest = sorted((t for t in cands if t is not cur), key=lambda t: (t.vid - base - 1) % n)
+    # canonical order: the running thread first (unless it yields), then round robin
+    if cur_enabled and not yielding:
+      order = [cur] + rest
+    elif cur_enabled:
+      order = rest + [cur]
+    else:
+      order = rest
+    if len(order) > 1:
+      i = len(self.taken)
+      c = self.choices[i] if i < len(self.choices) else 0
+      if c >= len(order):
+        return self._fail("diverged")
+      self.points.append({"n": len(order), "costly": bool(cur_enabled),
+                          "kinds": [t.pending[0] for t in order], "step": self.steps})
+      self.taken.append(c)
+      nxt = order[c]
+    else:
+      nxt = order[0]
+    self.steps += 1
+    if self.steps > self.horizon:
+      return self._fail("livelock")
+    self.trace.append((nxt.vid, nxt.pending[0], nxt.pending[4]))
+    self.current = nxt
+    nxt.pending = None
+    return nxt
+
   def run(self):
     """Run to completion.  Raises Deadlock / Livelock (after aborting)."""
     try:
-      while True:
-        live = [t for t in self.threads if t.started and not t.finished]
-        if not live:
-          return
-        cands = [t for t in live if self.enabled(t)]
-        if not cands:
-          raise Deadlock()
-        cur = self.current
-        cur_enabled = cur is not None and cur in cands
-        yielding = cur_enabled and cur.pending[3]
-        # canonical order: the running thread first (unless it yields), then round robin
-        rest = sorted((t for t in cands if t is not cur),
-                      key=lambda t: ((t.vid - (cur.vid if cur else -1) - 1) % (len(self.threads) + 1)))
-        if cur_enabled and not yielding:
-          order = [cur] + rest
-        elif cur_enabled:
-          order = rest + [cur]
-        else:
-          order = rest
-        if len(order) > 1:
-          i = len(self.taken)
-          c = self.choices[i] if i < len(self.choices) else 0
-          if c >= len(order):
-            raise RuntimeError("schedule replay diverged: choice %d of %d at point %d" % (c, len(order), i))
-          self.points.append({"n": len(order), "cur_enabled": cur_enabled and not yielding,
-                              "kinds": [t.pending[0] for t in order], "step": self.steps})
-          self.taken.append(c)
-          nxt = order[c]
-        else:
-          nxt = order[0]
-        self.steps += 1
-        if self.steps > self.horizon:
-          raise Livelock()
-        self.trace.append((nxt.vid, nxt.pending[0], nxt.pending[4]))
-        self.current = nxt
-        nxt.pending = None
-        nxt.baton.release()
-        self.parked.acquire()          # until it parks again or finishes
-    except BaseException:
+      first = self._decide()
+      if first is not None:
+        first.baton.release()
+        self.done.acquire()
+    finally:
+      failed = self.failure
       self.abort()
-      raise
+    if failed == "deadlock":
+      raise Deadlock()
+    if failed == "livelock":
+      raise Livelock()
+    if failed == "diverged":
+      raise RuntimeError("schedule replay diverged from its recorded prefix")
 
   def start_thread(self, vt):
     vt.started = True
@@ -170,13 +210,18 @@ class Scheduler(object):
   def abort(self):
     self.aborting = True
     for t in self.threads:
-      if t.os_thread is not None and t.os_thread.is_alive():
-        t.baton.release()
+      if t.os_thread is not None and t.os_thread.ident is not None and not t.finished and t.parked:
+        try:
+          t.baton.release()
+        except RuntimeError:
+          pass
     for t in self.threads:
       if t.os_thread is not None and t.os_thread.ident is not None:
         t.os_thread.join(2.0)
 
   def blocked_summary(self):
+    if self.blocked_at_failure is not None:
+      return self.blocked_at_failure
     out = []
     for t in self.threads:
       if t.started and not t.finished and t.pending is not None:
